@@ -9,7 +9,10 @@ log=$d/confirm.log
 export CARGO_NET_OFFLINE=true
 cd $wt || exit 9
 git checkout -q -- . ; rm -f embedded-cli/tests/seed_demo.rs
+# the worktree follows /repo's HEAD (repairs made after the seed was written included)
+git checkout -q --detach $(git -C /repo rev-parse HEAD)
 : > $log
+echo "base: $(git rev-parse --short HEAD)" | tee -a $log
 git apply $d/patch.diff || { echo "patch does not apply" | tee -a $log; exit 9; }
 suite=$(CARGO_TARGET_DIR=$wt/target cargo test --workspace --offline 2>&1 | grep -E "^test result" | awk '{p+=$4; f+=$6} END{print p" passed "f" failed"}')
 echo "suite with change: $suite" | tee -a $log
